@@ -64,7 +64,8 @@ def items(tier, seed):
                                        'cdelay': [1]},
                              top_open={'window': [1], 'timeout': [2, 3]},
                              nest_open={'critical': [True], 'window': [1],
-                                        'sdt': [0, 2], 'timeout': [1, 2]},
+                                        'sdt': [0, 2], 'timeout': [1, 2],
+                                        'watch': [True]},
                              k=2 if th else 1, bound=2)
     for where in ('m', 'n'):
         yield from spaces.mk(['deep3'], force='mods', fargs=timeouts(where),
